@@ -78,8 +78,51 @@ def _mod(ctx: RuleCtx) -> Module:
                     val = mod.assign_value(ann.id)
                     if isinstance(val, (ast.Subscript, ast.Attribute, ast.Name, ast.Constant)):
                         setattr(obj, field, copy.deepcopy(val))
+    _declass(mod)
     mod._c14_aliases_expanded = True  # type: ignore[attr-defined]
     return mod
+
+
+def _declass(mod: Module) -> None:
+    """Class-as-closure normal form: a class whose `__init__` only stores its parameters / fresh values into attributes is a closure record.
+    Its methods are read as nested functions: `self` dropped, `self.x` -> `x`, `self.m(..)` -> `m(..)`; the captured names and their annotations
+    are those of `__init__` (recorded in `mod._c14_captured[class name]`)."""
+    import copy
+    captured: T.Dict[str, T.List[ast.arg]] = {}
+    for cq, cls in list(mod.classes().items()):
+        if '.' in cq:
+            continue
+        init = next((b for b in cls.body if isinstance(b, ast.FunctionDef) and b.name == '__init__'), None)
+        if init is None or not init.args.args or init.args.args[0].arg != 'self':
+            continue
+        attrs: T.Set[str] = set()
+        ok = True
+        for st in init.body:
+            if isinstance(st, ast.Expr) and isinstance(st.value, ast.Constant):
+                continue
+            tg = st.targets[0] if isinstance(st, ast.Assign) and len(st.targets) == 1 else (st.target if isinstance(st, ast.AnnAssign) else None)
+            if not (isinstance(tg, ast.Attribute) and isinstance(tg.value, ast.Name) and tg.value.id == 'self'):
+                ok = False
+                break
+            attrs.add(tg.attr)
+        if not ok:
+            continue
+        attrs |= {t.id for b in cls.body if isinstance(b, (ast.Assign, ast.AnnAssign)) for t in ([b.target] if isinstance(b, ast.AnnAssign) else b.targets) if isinstance(t, ast.Name)}
+        meths = {b.name for b in cls.body if isinstance(b, ast.FunctionDef)}
+
+        class R(ast.NodeTransformer):
+            def visit_Attribute(self, n: ast.Attribute) -> ast.AST:
+                self.generic_visit(n)
+                if isinstance(n.value, ast.Name) and n.value.id == 'self' and (n.attr in attrs or n.attr in meths):
+                    return ast.copy_location(ast.Name(id=n.attr, ctx=n.ctx), n)
+                return n
+        for b in cls.body:
+            if isinstance(b, ast.FunctionDef) and b.args.args and b.args.args[0].arg == 'self' and not b.decorator_list:
+                R().visit(b)
+                if not any(isinstance(n, ast.Name) and n.id == 'self' for x in b.body for n in ast.walk(x)):
+                    b.args.args = b.args.args[1:]
+        captured[cq] = [copy.deepcopy(a) for a in init.args.args[1:]]
+    mod._c14_captured = captured  # type: ignore[attr-defined]
 PIPELINE_ROOTS = ['do_conf_file', 'do_conf_str', 'do_replacement']
 
 
@@ -550,6 +593,8 @@ def _check_table(ctx: RuleCtx, mod: Module, spec: Spec, tab: Table, what: str, o
 
 def _confs(mod: Module, qn: str) -> T.Set[str]:
     c = taint.Analysis(mod).conf_params(qn)
+    cap = getattr(mod, '_c14_captured', {}).get(qn.split('.')[0], []) if '.' in qn else []
+    c = c | {a.arg for a in cap if a.annotation is not None and 'ConfigurationData' in norm(a.annotation)}
     if not c:
         raise Undecided(f'{qn}: no ConfigurationData parameter in scope')
     return c
@@ -910,7 +955,7 @@ def r3(ctx: RuleCtx) -> None:
     total += _check_table(ctx, mod, Spec(qn, _confs(mod, qn), ref_at, _callback_extra(m)), tab, '@VAR@ per value type')
 
     # ${VAR} / @VAR@ (cmake): bool -> 1 / 0
-    qn = 'do_replacement_cmake.variable_get'
+    qn = _cmake_lookup(mod)
     fn = mod.func(qn)
     _guard_ok(fn, _confs(mod, qn))
     tab = _table(mod, fn, handlers=True, name=qn)
@@ -1207,9 +1252,43 @@ def _cmake_rhs(ctx: RuleCtx, mod: Module, qn: str, outer: str, ln: str, call: as
     return n
 
 
+def _header_fn(mod: Module) -> ast.FunctionDef:
+    """`_dump_c_header`, or - when it only drains a generator of the module (`for chunk in chunks(..): ofile.write(chunk)`) - that generator
+    with every `yield E` read as `ofile.write(E)` (same statements, same order; the text reaches the file either way)."""
+    import copy
+    fn = mod.func('_dump_c_header')
+    body = [b for b in fn.body if not (isinstance(b, ast.Expr) and isinstance(b.value, ast.Constant))]
+    outp = [a.arg for a in fn.args.args if a.annotation is not None and 'TextIO' in norm(a.annotation)]
+    if len(body) == 1 and isinstance(body[0], ast.For) and isinstance(body[0].target, ast.Name) and len(outp) == 1 and \
+            isinstance(body[0].iter, ast.Call) and isinstance(body[0].iter.func, ast.Name) and mod.has_func(body[0].iter.func.id) and \
+            len(body[0].body) == 1 and norm(body[0].body[0]) == f'{outp[0]}.write({body[0].target.id})' and not body[0].orelse:
+        gen = mod.func(body[0].iter.func.id)
+        bound = _bind_call(body[0].iter, gen)
+        if bound is None or any(not (isinstance(v, ast.Name) and v.id == k) for k, v in bound.items()) or \
+                any(isinstance(n, ast.YieldFrom) for n in ast.walk(gen)):
+            raise Undecided(f'_dump_c_header drains `{short(body[0].iter)}`: arguments are not passed through under their own names')
+        g2 = copy.deepcopy(gen)
+
+        class Y(ast.NodeTransformer):
+            def visit_Expr(self, n: ast.Expr) -> ast.AST:
+                if isinstance(n.value, ast.Yield) and n.value.value is not None:
+                    call = ast.Call(func=ast.Attribute(value=ast.Name(id=outp[0], ctx=ast.Load()), attr='write', ctx=ast.Load()), args=[n.value.value], keywords=[])
+                    return ast.copy_location(ast.Expr(value=ast.copy_location(call, n)), n)
+                return n
+
+            def visit_FunctionDef(self, n: ast.FunctionDef) -> ast.AST:
+                return self.generic_visit(n) if n is g2 else n
+        g2 = T.cast(ast.FunctionDef, ast.fix_missing_locations(Y().visit(g2)))
+        if any(isinstance(n, ast.Yield) for n in ast.walk(g2)):
+            raise Undecided(f'{gen.name}: a yield that is not a statement of its own')
+        g2.args.args = [copy.deepcopy(a) for a in fn.args.args if a.arg == outp[0]] + g2.args.args
+        return g2
+    return fn
+
+
 def _header_forms(ctx: RuleCtx, mod: Module) -> int:
     qn = '_dump_c_header'
-    fn = mod.func(qn)
+    fn = _header_fn(mod)
     confs = _confs(mod, qn)
     loops = [s for s in fn.body if isinstance(s, ast.For)]
     if len(loops) != 1 or not isinstance(loops[0].target, ast.Name):
@@ -1484,7 +1563,25 @@ def _line_loop(ctx: RuleCtx, mod: Module, qn: str) -> T.Set[str]:
             continue
         # names missing from a replacement transformer must be accumulated
         need = [a for a, f in aux.items() if f in ch]
-        lost = [a for a in need if a not in updated]
+        # a path that has tested the reported set and found it empty has nothing to accumulate
+        known_empty = set()
+        for txt_, val_ in p.conds():
+            e_ = _parse(txt_)
+            neg_ = False
+            while isinstance(e_, ast.UnaryOp) and isinstance(e_.op, ast.Not):
+                neg_, e_ = not neg_, e_.operand
+            if isinstance(e_, ast.Compare) and len(e_.ops) == 1 and isinstance(e_.comparators[0], ast.Constant) and isinstance(e_.left, ast.Call) \
+                    and isinstance(e_.left.func, ast.Name) and e_.left.func.id == 'len' and len(e_.left.args) == 1:
+                op_, c_ = e_.ops[0], e_.comparators[0].value
+                if (isinstance(op_, ast.Gt) and c_ == 0) or (isinstance(op_, ast.NotEq) and c_ == 0) or (isinstance(op_, ast.GtE) and c_ == 1):
+                    e_ = e_.left.args[0]                 # len(x) > 0  ==  x is not empty
+                elif isinstance(op_, ast.Eq) and c_ == 0:
+                    neg_, e_ = not neg_, e_.left.args[0]  # len(x) == 0  ==  not x
+            if isinstance(e_, ast.Call) and isinstance(e_.func, ast.Name) and e_.func.id in ('len', 'bool') and len(e_.args) == 1:
+                e_ = e_.args[0]
+            if isinstance(e_, ast.Name) and (bool(val_) == neg_):
+                known_empty.add(e_.id)
+        lost = [a for a in need if a not in updated and a not in known_empty]
         if lost and miss_name in escapes:
             raise Undecided(f'{qn}: on the path [{where}] `{miss_name}` is handed to a helper or rebuilt; cannot see whether {lost} is accumulated')
         if lost:
@@ -1695,7 +1792,7 @@ def r4c(ctx: RuleCtx) -> None:
 # ---------------------------------------------------------------------------------------------
 def r5(ctx: RuleCtx) -> None:
     mod = _mod(ctx)
-    fn = mod.func('_dump_c_header')
+    fn = _header_fn(mod)
     conf = [a.arg for a in fn.args.args if a.annotation is not None and 'ConfigurationData' in norm(a.annotation)]
     outp = [a.arg for a in fn.args.args if a.annotation is not None and 'TextIO' in norm(a.annotation)]
     if len(conf) != 1 or len(outp) != 1:
@@ -2218,15 +2315,48 @@ def _lin(e: ast.AST) -> T.Optional[T.Tuple[str, int]]:
     return None
 
 
+def _cmake_family(mod: Module) -> T.List[str]:
+    """The cmake scanner and everything it is made of: the function, its closures, and the methods of a record class it instantiates."""
+    host = 'do_replacement_cmake'
+    hf = mod.func(host)
+    classes = {c.func.id for c in ast.walk(hf) if isinstance(c, ast.Call) and isinstance(c.func, ast.Name) and mod.has_cls(c.func.id)}
+    return [q for q in mod.funcs() if q == host or q.startswith(host + '.') or q.split('.')[0] in classes]
+
+
+def _family_name(q: str) -> str:
+    """Finding keys name a member of the scanner by its role (`do_replacement_cmake.<member>`), whether it is a closure or a method of a record class."""
+    host = 'do_replacement_cmake'
+    return q if q == host or q.startswith(host + '.') else f'{host}.{q.split(".")[-1]}'
+
+
+def _cmake_lookup(mod: Module) -> str:
+    """The helper of the cmake scanner that looks a name up, by role: it calls <configuration data>.get(<its own parameter>)."""
+    hits = []
+    for q in _cmake_family(mod):
+        f = mod.func(q)
+        own = {a.arg for a in f.args.args}
+        try:
+            confs = _confs(mod, q)
+        except Undecided:
+            continue
+        if any(isinstance(c, ast.Call) and isinstance(c.func, ast.Attribute) and c.func.attr == 'get' and isinstance(c.func.value, ast.Name) and c.func.value.id in confs
+               and len(c.args) == 1 and isinstance(c.args[0], ast.Name) and c.args[0].id in own and mod.enclosing_func(c) == q for c in ast.walk(f)):
+            hits.append(q)
+    if len(hits) != 1:
+        raise Undecided(f'cmake scanner: {len(hits)} helpers look a name up in the configuration data {hits}')
+    return hits[0]
+
+
 def r8(ctx: RuleCtx) -> None:
     mod = _mod(ctx)
     host = 'do_replacement_cmake'
     mod.func(host)
+    family = _cmake_family(mod)
     confs = _confs(mod, host)
     # the lookup helper, by role: a function in the scanner that calls <conf>.get(<own parameter>)
     lookups = set()
     for q, f in mod.funcs().items():
-        if q == host or q.startswith(host + '.'):
+        if q in family:
             own = {a.arg for a in f.args.args}
             for c in ast.walk(f):
                 if isinstance(c, ast.Call) and isinstance(c.func, ast.Attribute) and c.func.attr == 'get' and isinstance(c.func.value, ast.Name) and \
@@ -2236,7 +2366,7 @@ def r8(ctx: RuleCtx) -> None:
         raise Undecided(f'{host}: no helper that looks a name up in the configuration data')
     n = 0
     for q, f in mod.funcs().items():
-        if not (q == host or q.startswith(host + '.')):
+        if q not in family:
             continue
         text_p = {a.arg for a in f.args.args if a.annotation is not None and norm(a.annotation) == 'str'}
         for node in ast.walk(f):
@@ -2286,7 +2416,7 @@ def r8(ctx: RuleCtx) -> None:
                     if direct or (best is not None and best >= need):
                         ctx.ok(what)
                     elif best is not None:
-                        ctx.violation(mod, q, f'name slice {txt} may be empty', f'in the @ arm the name `{txt}` is looked up although the path conditions only give '
+                        ctx.violation(mod, _family_name(q), f'name slice {txt} may be empty', f'in the @ arm the name `{txt}` is looked up although the path conditions only give '
                                       f'{hi[0]} - {lo[0]} >= {best} (needed: >= {need}): for {hi[0]} == {lo[0]} + {best} the name is empty, i.e. `@@` is taken for a placeholder '
                                       'and replaced by nothing (and "" is reported as a missing variable)', r.path.events[-1].node if r.path.events else node)
                     else:
@@ -2370,9 +2500,10 @@ def r10(ctx: RuleCtx) -> None:
     mod = _mod(ctx)
     host = 'do_replacement_cmake'
     mod.func(host)
+    family = _cmake_family(mod)
     n = 0
     for q, f in mod.funcs().items():
-        if not (q == host or q.startswith(host + '.')):
+        if q not in family:
             continue
         text_p = [a.arg for a in f.args.args if a.annotation is not None and norm(a.annotation) == 'str']
         for w in [x for x in f.body if isinstance(x, ast.While)]:
@@ -2406,7 +2537,7 @@ def r10(ctx: RuleCtx) -> None:
                         continue
                     li = _lin(idx)
                     if li is not None and li[0] == pos and li[1] >= 1:
-                        ctx.violation(mod, q, f'scan position after a replacement: {pos} + {li[1]}',
+                        ctx.violation(mod, _family_name(q), f'scan position after a replacement: {pos} + {li[1]}',
                                       f'after `{tp} = {short(ln, 90)}` the scan position becomes `{norm(idx)}`, whatever the length of the inserted value: when the value is '
                                       f'empty the character that now stands at `{pos}` (the one right after the placeholder) is never examined, so an adjacent placeholder is '
                                       f'copied out unreplaced (`@A@@B@` with A = "" gives `@B@`)', r.path.events[-1].node if r.path.events else w)
